@@ -18,6 +18,7 @@ func init() {
 }
 
 func ruleC03(c *Check) {
+	c.addressRoles("C03.6")
 	c.assume("A-SDK: bank methods move exactly the coins they are given or fail; sdk.Coins arithmetic is correct")
 	c.depositInventory("C03.1")
 	c.depositPairing("C03.2")
